@@ -181,6 +181,24 @@ def probes():
     out["shared"] = dict(first_job=canon_path(t1.__xpm__.job.path), second_job=canon_path(t2.__xpm__.job.path),
                          path_in_second=canon_path(t2.c.p))
     try:
+        from vpk_c17.probe import PLeaf, TIgnored, PHolder, PState, TAttach
+        s = PLeaf(x=1)
+        t1, t2 = TIgnored(m=s, p=s), TIgnored(p=PLeaf(x=1))
+        t1.submit(run_mode=RunMode.DRY_RUN)
+        t2.submit(run_mode=RunMode.DRY_RUN)
+        out["ignored_parameter"] = dict(first_job=canon_path(t1.__xpm__.job.path), second_job=canon_path(t2.__xpm__.job.path),
+                                        first_path=canon_path(t1.p.path), second_path=canon_path(t2.p.path))
+        p1, p2 = PState(v=1), PState(v=1)
+        t1 = TAttach(a=PHolder(y=1).add_pretasks(p1), b=PHolder(y=2))
+        t2 = TAttach(a=PHolder(y=1), b=PHolder(y=2).add_pretasks(p2))
+        t1.submit(run_mode=RunMode.DRY_RUN)
+        t2.submit(run_mode=RunMode.DRY_RUN)
+        out["pretask_attachment"] = dict(first_job=canon_path(t1.__xpm__.job.path), second_job=canon_path(t2.__xpm__.job.path),
+                                         first_path=canon_path(p1.state), second_path=canon_path(p2.state))
+    except Exception as e:  # noqa
+        out["ignored_parameter"] = out.get("ignored_parameter") or dict(error=f"{type(e).__name__}: {e}")
+        out["pretask_attachment"] = out.get("pretask_attachment") or dict(error=f"{type(e).__name__}: {e}")
+    try:
         from vpk_c17.probe import TDefault2
         t1, t2 = TDefault2(y=1), TDefault2(y=2)
         same_object = t1.a is t2.a
